@@ -61,6 +61,8 @@ META = {
         "as in a real search where a test reaching a branch also took one of its controlling branches)",
         "the CDG itself is C06's subject: the oracle reads its edge list and branch_value labels and recomputes "
         "root-dependence and structural parents from them with its own search",
+        "the CFG and its branch_value edge labels are C03/C06's subject: the walks of oracle (e) follow the real CFG edges; "
+        "any prefix of a CFG path counts as an execution (a test may raise anywhere)",
         "modules whose instrumentation fails for reasons that belong to other properties (negative stack size of the "
         "bytecode library, CFG construction errors: C01/C03/C06) are counted as excluded",
     ],
@@ -110,7 +112,11 @@ def _cdg_edges(cdg: Any) -> tuple[list[tuple[Any, Any, Any]], Any]:
 
     edges = []
     for a, b, data in cdg.graph.edges(data=True):
-        edges.append((a, b, data.get(cf.EDGE_DATA_BRANCH_VALUE)))
+        both = data.get("branch_values")  # set by the proposed C06 repair for dependences under both outcomes
+        if both:
+            edges.extend((a, b, v) for v in both)
+        else:
+            edges.append((a, b, data.get(cf.EDGE_DATA_BRANCH_VALUE)))
     return edges, cdg.entry_node
 
 
@@ -400,7 +406,18 @@ def _child(case: dict[str, Any], workdir: str) -> dict[str, Any]:  # noqa: C901,
             pid = int(gname.split(":")[1])
             line = sp.existing_predicates[pid].line_no
             co = cmeta.code_object
-            kind = "generator" if co.co_flags & 0x20 else "function"
+            # a controlling node with a third CFG successor (the artificial exit of a yielding block) makes its
+            # dependents depend on BOTH outcomes, which one labelled CDG edge cannot express (C06's finding)
+            try:
+                lost_deps = cmeta.cdg.get_control_dependencies(sp.existing_predicates[pid].node)
+            except Exception:  # noqa: BLE001
+                lost_deps = []
+            three_way = any(
+                len(set(graph.successors(dep.node))) > 2
+                and f"branch:{node_pred[cid].get(dep.node)}:{not dep.branch_value}" in archived2
+                for dep in lost_deps
+            )
+            kind = "other-outcome-of-three-way-parent-covered" if three_way else "no-three-way-parent"
             pruned = "pruned-cdg" if any(_is_block(n) and n not in set(cmeta.cdg.graph.nodes) for n in graph.nodes) else "full-cdg"
             fail(f"walk|covered-goal-not-archived|{pruned}|{kind}|{mode}",
                  f"{cfg_txt}: a walk through the CFG of {co.co_name}@{co.co_firstlineno} takes, in this order, {taken}; after one "
